@@ -19,7 +19,7 @@ sys.path.insert(0, '/verif')
 from pyvc import specs as S      # noqa: E402
 from replayers import monitor    # noqa: E402
 
-NCT = 3
+NCT = 4      # CT2: falsy instances (__len__ 0); CT3: derived from CT0 (exact-type bookkeeping must not confuse them)
 NK = 4
 
 
@@ -33,9 +33,9 @@ def make_world():
     w.CT = []
     for k in range(NCT):
         ns = {'_verif_user': True, '__slots__': ()}
-        if k == NCT - 1:
+        if k == 2:
             ns['__len__'] = lambda self: 0          # a container-like component that is falsy (identity equality kept)
-        w.CT.append(type(f'CT{k}', (Component,), ns))
+        w.CT.append(type(f'CT{k}', ((w.CT[0],) if k == 3 else (Component,)), ns))
     K0 = type('K0', (Agent,), {'_verif_user': True})
     K1 = type('K1', (K0,), {})
     K2 = type('K2', (K0,), {})
@@ -498,7 +498,8 @@ def small_histories(prop):
                ('add', 'c'), ('remove', who), ('query', [0], 'none'), ('add', who), ('remove', 'b')]
     # spatial worlds
     for kind, dims in (('space', (5, 5, 5)), ('space', (5, 0, 5)), ('space', (0, 5, 5)), ('discrete', (3, 0, 3)),
-                       ('discrete', (3, 3, 3)), ('line', (4, 0, 0)), ('grid', (4, 3, 0))):
+                       ('discrete', (3, 3, 3)), ('line', (4, 0, 0)), ('grid', (4, 3, 0)),
+                       ('space', (0.5, 0.5, 0.5)), ('space', (5.0, 0.75, 0)), ('space', (2.5, 1.5, 0.25))):
         W, H, D = dims
         off = 0 if kind == 'space' else 1
         places = [(0, 0, 0), (max(W - off, 0), max(H - off, 0), max(D - off, 0)), (W + 1, 0, 0), (0, H + 1, 0),
@@ -516,6 +517,11 @@ def small_histories(prop):
         yield ops + [_mk('a', 0, None, (0, 1)), _mk('b', 0, None, (0,)), ('add', 'a', 1, 1, 0) if kind != 'plain' else ('add', 'a'),
                      ('add', 'b', 0, 0, 0) if kind != 'plain' else ('add', 'b'), ('remove_alias', 'a'), ('query', [0], 'none'),
                      ('remove_alias', 'zz'), ('remove', 'b')]
+    # a derived component type attached before / after its base type: listings and lookups are by exact type
+    for order in ((3, 0), (0, 3), (3,), (3, 0, 1)):
+        yield [_mk('a', 0, None, order), _mk('b', 0, None, (0,)), _mk('c', 0, None, (3,)), ('add', 'a'), ('add', 'b'),
+               ('add', 'c'), ('query', [0], 'none'), ('query', [3], 'none'), ('query', [0, 3], 'none'), ('remove', 'a'),
+               ('query', [0], 'none'), ('add', 'a'), ('remove', 'b'), ('remove', 'c'), ('remove', 'a')]
     # tags beyond the small-int cache, falsy components
     yield [_mk('a', 0, 70001, (2,)), _mk('b', 0, 70001, (0, 2)), _mk('c', 0, 5, (2,)), ('add', 'a'), ('add', 'b'), ('add', 'c'),
            ('query', [], 70001), ('query', [2], 'none'), ('query', [0, 2], 70001), ('query', [2], 5), ('remove', 'a'), ('remove', 'b')]
